@@ -58,6 +58,10 @@ pub const ORIGINS: &[&str] = &[
     "wss://a.test/",
     "ws://a.test:8080/",
     "custom://a.test/",
+    // letter case together with an explicit port (same origins as http://a.test:8080/ and https://a.test:8080/)
+    "http://A.Test:8080/",
+    "HTTPS://A.TEST:8080/",
+    "http://A.test:443/",
 ];
 
 pub const NEAR_MISS_FROM: usize = 6;
@@ -157,6 +161,9 @@ pub struct ConnT {
     pub sure_idle: bool,
     /// real-time upper bound of the instant the pool stamped this connection as idle
     pub entry_instant_ub: Option<std::time::Instant>,
+    /// multiplexed connections: the latest instant at which the pool's handle may have been
+    /// refreshed (creation, any request issued for the origin, any hand-off)
+    pub shared_touch_ub: std::time::Instant,
     pub ever_pooled: bool,
 }
 
@@ -200,6 +207,9 @@ pub struct ReqT {
     /// virtual deadline of the request when a timeout is configured
     pub deadline_ms: Option<u64>,
     pub issue_instant: std::time::Instant,
+    /// for multiplexed connections of the request's origin: an upper bound of the instant since which
+    /// the pool's handle had not been touched, taken just before this request was issued
+    pub shared_idle_since: Vec<(usize, std::time::Instant)>,
     /// at issue the pool certainly had nothing for this origin and no attempt to wait for: the
     /// request certainly carries a connector of its own
     pub has_connector_for_sure: bool,
@@ -315,7 +325,7 @@ impl World {
     }
     fn cfg_plain(&self) -> bool {
         // no capacity / expiry interference for the reuse rules
-        self.cfg.max_idle >= 16 && matches!(self.cfg.idle_timeout_ms, None | Some(0) | Some(3_600_000))
+        self.cfg.max_idle >= 16 && matches!(self.cfg.idle_timeout_ms, None | Some(0) | Some(3_600_000) | Some(u64::MAX))
     }
 }
 
@@ -551,6 +561,7 @@ impl Future for HandshakeFuture {
                     last_handoff_step: None,
                     sure_idle: false,
                     entry_instant_ub: None,
+                    shared_touch_ub: std::time::Instant::now() + Duration::from_millis(1),
                     ever_pooled: matches!(actor, Actor::Bg),
                 });
                 w.log(|| format!("conn#{id} from dial#{did} shareable={shareable} by {actor:?}"));
@@ -864,12 +875,27 @@ fn handoff(w: &mut World, rid: usize, cid: usize, st: usize, req_okey: &str) {
         let entered_after_issue = w.conns[cid].entry_step.map(|e| e > w.reqs[rid].issue_step).unwrap_or(true);
         if !entered_after_issue {
             if let Some(age) = issue.checked_duration_since(ub) {
-                if age > Duration::from_millis(t + 20) {
+                if age > Duration::from_millis(t.saturating_add(20)) {
                     let msg = format!("request #{rid} was given pooled connection #{cid} which had been idle for at least {} ms when the request was issued (idle_timeout {t} ms)", age.as_millis());
                     w.violate("C05/expired-connection-handed-out", msg);
                 }
                 if age > Duration::from_millis(t) {
                     w.classes.insert("handoff-near-or-after-expiry");
+                }
+            }
+        }
+    }
+    // ---- C05 expiry of a multiplexed connection: its pooled handle had certainly not been touched
+    // for longer than the idle timeout when this request was issued
+    if let (Some(t), true) = (w.cfg.idle_timeout_ms.filter(|t| *t > 0), w.conns[cid].shareable) {
+        if let Some((_, since)) = w.reqs[rid].shared_idle_since.iter().find(|(c, _)| *c == cid) {
+            if let Some(age) = w.reqs[rid].issue_instant.checked_duration_since(*since) {
+                if age > Duration::from_millis(t.saturating_add(20)) {
+                    let msg = format!("request #{rid} was given the multiplexed connection #{cid} whose pooled handle had not been used for at least {} ms when the request was issued (idle_timeout {t} ms)", age.as_millis());
+                    w.violate("C05/expired-connection-handed-out", msg);
+                }
+                if age > Duration::from_millis(t) {
+                    w.classes.insert("shared-handoff-near-or-after-expiry");
                 }
             }
         }
@@ -1022,7 +1048,8 @@ impl Sim {
     pub fn new(cfg: PoolCfg, logging: bool) -> Self {
         let w: W = Arc::new(Mutex::new(World { cfg: cfg.clone(), logging, ..Default::default() }));
         let mut pc = PoolConfig::default();
-        pc.idle_timeout = cfg.idle_timeout_ms.map(Duration::from_millis);
+        // u64::MAX stands for Duration::MAX ("never expire" spelled as a duration)
+        pc.idle_timeout = cfg.idle_timeout_ms.map(|t| if t == u64::MAX { Duration::MAX } else { Duration::from_millis(t) });
         pc.max_idle_per_host = cfg.max_idle;
         pc.continue_after_preemption = cfg.cont;
         let svc = ConnectionPoolService::new(HTransport(w.clone()), HProtocol(w.clone()), HService(w.clone()), pc);
@@ -1087,7 +1114,7 @@ impl Sim {
             }
             if let Some(t) = w.cfg.idle_timeout_ms.filter(|t| *t > 0) {
                 let now = std::time::Instant::now();
-                if w.conns.iter().any(|c| c.okey == okey && !c.shareable && c.sure_idle && c.entry_instant_ub.map(|ub| now.duration_since(ub) > Duration::from_millis(t + 20)).unwrap_or(false)) {
+                if w.conns.iter().any(|c| c.okey == okey && !c.shareable && c.sure_idle && c.entry_instant_ub.map(|ub| now.duration_since(ub) > Duration::from_millis(t.saturating_add(20))).unwrap_or(false)) {
                     w.classes.insert("issue-with-only-expired-idle-connection");
                 }
             }
@@ -1115,6 +1142,15 @@ impl Sim {
                 });
                 !possibly_idle && !others_alive && !dial_in_flight && !limbo && !pending_continuation
             };
+            // every checkout may take (and re-insert, freshly stamped) the pool's handle of a multiplexed connection
+            let touch = std::time::Instant::now() + Duration::from_millis(1);
+            let mut shared_idle_since = vec![];
+            for (cid, c) in w.conns.iter_mut().enumerate() {
+                if c.shareable && c.okey == okey {
+                    shared_idle_since.push((cid, c.shared_touch_ub));
+                    c.shared_touch_ub = touch;
+                }
+            }
             w.reqs.push(ReqT {
                 okey: okey.clone(),
                 origin_idx: origin,
@@ -1134,6 +1170,7 @@ impl Sim {
                 timed: self.cfg.req_timeout_ms.is_some(),
                 deadline_ms,
                 issue_instant: std::time::Instant::now(),
+                shared_idle_since,
                 has_connector_for_sure,
                 popped_for_sure,
             });
@@ -2324,10 +2361,10 @@ pub fn expiry_scenario_strategy() -> impl Strategy<Value = PoolCase> {
 /// Idle timeouts of a whole number of seconds (the usual configuration: 1 s, 90 s ...): one or two
 /// connections go idle, the history sleeps 1.15 s in real time, then requests are issued.
 pub fn expiry_whole_second_strategy() -> impl Strategy<Value = PoolCase> {
-    (1usize..3, prop_oneof![3 => Just(Some(1000u64)), 1 => Just(Some(2000u64))], 1usize..3, any::<bool>(), any::<bool>()).prop_map(|(k, timeout, probes, cont, open_is_ready)| {
+    (1usize..3, prop_oneof![3 => Just(Some(1000u64)), 1 => Just(Some(2000u64))], 1usize..3, any::<bool>(), any::<bool>(), prop_oneof![2 => Just(false), 1 => Just(true)]).prop_map(|(k, timeout, probes, cont, open_is_ready, h2)| {
         let mut ops = vec![];
         for _ in 0..k {
-            ops.push(Op::Hold { origin: 0, h2: false });
+            ops.push(Op::Hold { origin: 0, h2 });
         }
         for i in 0..k {
             ops.push(Op::Release(((i * 65536) / k) as u16 + 1));
@@ -2343,7 +2380,7 @@ pub fn expiry_whole_second_strategy() -> impl Strategy<Value = PoolCase> {
         }
         ops.push(Op::Sleep(1150));
         for _ in 0..probes {
-            ops.push(Op::Issue { origin: 0, h2: false });
+            ops.push(Op::Issue { origin: 0, h2 });
         }
         for j in 0..probes {
             ops.push(Op::Poll(((j * 65536) / probes) as u16 + 1));
@@ -2392,7 +2429,7 @@ pub fn near_origins_strategy(wt: Weights, max_ops: usize) -> impl Strategy<Value
         )
             .prop_map(move |(picks, family, cfg, ops)| {
                 // `family`: stay within the entries about a.test (base table 0..3 plus near misses 6..12)
-                let pool: Vec<u8> = if family { vec![0, 1, 2, 4, 6, 7, 8, 9, 10, 11, 18, 19, 20, 21] } else { (0..ORIGINS.len() as u8).collect() };
+                let pool: Vec<u8> = if family { vec![0, 1, 2, 4, 6, 7, 8, 9, 10, 11, 18, 19, 20, 21, 22, 23, 24] } else { (0..ORIGINS.len() as u8).collect() };
                 let chosen: Vec<u8> = picks.iter().map(|r| pool[idx(*r, pool.len()).unwrap_or(0)]).collect();
                 let ops = ops
                     .into_iter()
@@ -2409,9 +2446,16 @@ pub fn near_origins_strategy(wt: Weights, max_ops: usize) -> impl Strategy<Value
     })
 }
 
+/// Small idle lists (1 or 2) together with the "open = not closed" connection flavour: the
+/// combination in which a released-but-busy connection, a closed idle entry and the idle bound meet.
+pub fn cfg_small_idle_strategy() -> impl Strategy<Value = PoolCfg> {
+    (prop_oneof![Just(None), Just(Some(0u64)), Just(Some(3_600_000u64))], prop_oneof![Just(1usize), Just(2)], any::<bool>(), prop_oneof![1 => Just(true), 3 => Just(false)])
+        .prop_map(|(t, m, cont, open_is_ready)| PoolCfg { idle_timeout_ms: t, max_idle: m, cont, req_timeout_ms: None, open_is_ready, caller_host: 0 })
+}
+
 pub fn cfg_any_strategy() -> impl Strategy<Value = PoolCfg> {
     (
-        prop_oneof![Just(None), Just(Some(0u64)), Just(Some(3_600_000u64))],
+        prop_oneof![3 => Just(None), 3 => Just(Some(0u64)), 3 => Just(Some(3_600_000u64)), 1 => Just(Some(u64::MAX))],
         prop_oneof![Just(0usize), Just(1), Just(2), Just(3), Just(32)],
         any::<bool>(),
         prop_oneof![2 => Just(true), 1 => Just(false)],
